@@ -224,6 +224,12 @@ public:
     std::swap(hash_fn_, other.hash_fn_);
     std::swap(eq_fn_, other.eq_fn_);
     buckets_.swap(other.buckets_);
+    // A table whose last doubling still has un-migrated stripes keeps their
+    // elements in old_buckets_ and counts the pending stripes; both belong to
+    // the state being exchanged.
+    old_buckets_.swap(other.old_buckets_);
+    std::swap(num_remaining_lazy_rehash_locks_,
+              other.num_remaining_lazy_rehash_locks_);
     all_locks_.swap(other.all_locks_);
     other.minimum_load_factor_.store(
         minimum_load_factor_.exchange(other.minimum_load_factor(),
